@@ -34,6 +34,8 @@ pub broadcast axiom fn iter_count_of_vec_ref<F>(v: &Vec<F>)
 pub broadcast axiom fn group_len_without_roots_and_ids<I>(files: I, roots: Seq<Path>, group_by_id: bool)
     requires roots.len() == 0 && !group_by_id,
     ensures #[trigger] spec_group_len::<I>(files, roots, group_by_id) == spec_iter_count::<I>(files);
+// "sgs is what FileSubGroup::group returns for (files, roots, group_by_id)" - uninterpreted as well
+pub uninterp spec fn spec_is_grouping_of<G, I>(sgs: Seq<G>, files: I, roots: Seq<Path>, group_by_id: bool) -> bool;
 pub open spec fn spec_subgroup_count<F>(g: &FileGroup<F>, filter: &FileGroupFilter) -> nat {
     spec_group_len(&g.files, filter.root_paths@, filter.group_by_id)
 }
@@ -45,7 +47,8 @@ impl<F> FileSubGroup<F> {
     // assumed contract of FileSubGroup::group (signature: `files: impl IntoIterator<Item = F>` written as a type parameter)
     #[verifier::external_body]
     pub fn group<I: IntoIterator<Item = F>>(files: I, roots: &[Path], group_by_id: bool) -> (r: Vec<FileSubGroup<F>>)
-        ensures r@.len() == spec_group_len(files, roots@, group_by_id)
+        ensures r@.len() == spec_group_len(files, roots@, group_by_id),
+                spec_is_grouping_of(r@, files, roots@, group_by_id),
     { unimplemented!() }
 }
 
@@ -132,6 +135,19 @@ def build():
         ub.piece(Piece(sl))
         ub.spec(FAST_TAIL)
     ub.optional("redundant_count fast path", fast_path, prefixes=["C14.redundant_fast_path."])
+
+    # --isolate branch of redundant_count: which sub-groups are counted (expression slice: initialiser of `let sub_groups`)
+    def isolated_branch():
+        fn = src.fn_in(impl, "pub fn redundant_count(&self, filter: &FileGroupFilter) -> usize {")
+        e = src.let_init(fn, "let sub_groups =")
+        ub.spec('''
+    fn redundant_isolated_sub_groups(&self, filter: &FileGroupFilter) -> (r: Vec<FileSubGroup<&F>>)
+        ensures spec_is_grouping_of(r@, &self.files, filter.root_paths@, filter.group_by_id), // @ob C14.redundant_isolated.counts_over_the_sub_groups_of_all_files_under_the_filters_roots_and_link_handling
+    {
+        ''')
+        ub.piece(Piece(e))
+        ub.spec("\n    }\n")
+    ub.optional("redundant_count --isolate branch: the sub-groups counted", isolated_branch, prefixes=["C14.redundant_isolated."])
     ub.spec('''
 }
 
